@@ -87,13 +87,17 @@ fn main() {
             let u = gen_vec(&mut rng, m);
             rep.eval();
             lengths_seen.insert(n);
-            let fx = Feature::from_vec(&x);
-            let fy = Feature::from_vec(y.clone());
-            let fz = Feature::from_vec(&z);
-            let fu = Feature::from_vec(&u);
+            // both public constructors (borrowed and owned vector) are exercised for every role: the choice is a
+            // function of the draw index, so every length sees both for every role
+            let mk = |v: &Vec<f32>, owned: bool| -> Feature { if owned { Feature::from_vec(v.clone()) } else { Feature::from_vec(v) } };
+            let fx = mk(&x, k & 1 == 1);
+            let fy = mk(&y, k & 1 == 0);
+            let fz = mk(&z, k & 2 == 2);
+            let fu = mk(&u, k & 2 == 0);
+            rep.count(if k & 1 == 1 { "roundtrips_owned_constructor" } else { "roundtrips_borrowed_constructor" });
             let detail = |what: &str, got: f64, exp: f64| json!({"what": what, "n": n, "m": m, "got": got, "expected": exp, "x": x, "y": y});
             // round trip
-            for (v, f) in [(&x, &fx), (&u, &fu)] {
+            for (v, f) in [(&x, &fx), (&u, &fu), (&y, &fy), (&z, &fz)] {
                 let back: Vec<f32> = Vec::from_vec(f);
                 let exp = pad(v);
                 let ok = if v.is_empty() {
